@@ -67,6 +67,7 @@ def map_ok(species_map, H):
 
 FUNCTIONS = {
     CV + "::hypergraph_to_bipartite": {
+        "wip": True,      # invariants not complete yet: loop-2 step obligations still open (not registered in MANIFEST)
         "params": {"H": "obj:CRNHyperGraph", "species_prefix": "const:'S:'", "reaction_prefix": "const:'R:'",
                    "bipartite_values": "const:(0, 1)", "include_stoich": "const:True", "include_role": "const:True",
                    "include_isolated_species": "const:True", "integer_ids": "const:False", "include_edge_id_attr": "bool",
@@ -88,21 +89,26 @@ FUNCTIONS = {
                         "view_nodes(G, H, {eids[j] for j in range(done)}, include_edge_id_attr)",
                         "view_arcs(G, H, {eids[j] for j in range(done)})"]},
             3: {"modifies": ["G.nodes", "G.nattr", "G.adj", "G.eattr"],
-                "inv": ["map_ok(species_map, H)",
-                        "same(set(G.nodes), at_entry(set(G.nodes)))",
-                        "forall(G.nodes, lambda n: same(G.nodes[n], at_entry(G.nodes[n])))",
-                        "forall(('any', 'any'), lambda u, v: G.has_edge(u, v) == (at_entry(G.has_edge(u, v)) or "
-                        "       (same(v, rnode) and exists(done, lambda s: same(u, sp(s))))))",
-                        "forall(done, lambda s: G[sp(s)][rnode] == {'stoich': R(H, eid, s), 'role': 'reactant'})",
-                        "forall(G.edges, lambda u, v: implies(at_entry(G.has_edge(u, v)), same(G[u][v], at_entry(G[u][v]))))"]},
+                "inv": ["map_ok(species_map, H)", "same(rnode, rx(eid))",
+                        # relative to the start of this reaction's iteration: one new node, reactant arcs of the species done
+                        "forall('any', lambda n: G.has_node(n) == (at_iter(G.has_node(n)) or same(n, rx(eid))))",
+                        "forall(at_iter(set(G.nodes)), lambda n: same(G.nodes[n], at_iter(G.nodes[n])))",
+                        "rx_attrs_ok(G, H, eid, include_edge_id_attr)",
+                        "forall(('any', 'any'), lambda u, v: G.has_edge(u, v) == (at_iter(G.has_edge(u, v)) or "
+                        "       (same(v, rx(eid)) and exists(done, lambda s: same(u, sp(s))))))",
+                        "forall(done, lambda s: G[sp(s)][rx(eid)] == {'stoich': R(H, eid, s), 'role': 'reactant'})",
+                        "forall(at_iter(set(G.edges)), lambda u, v: same(G[u][v], at_iter(G[u][v])))"]},
             4: {"modifies": ["G.nodes", "G.nattr", "G.adj", "G.eattr"],
-                "inv": ["map_ok(species_map, H)",
-                        "same(set(G.nodes), at_entry(set(G.nodes)))",
-                        "forall(G.nodes, lambda n: same(G.nodes[n], at_entry(G.nodes[n])))",
-                        "forall(('any', 'any'), lambda u, v: G.has_edge(u, v) == (at_entry(G.has_edge(u, v)) or "
-                        "       (same(u, rnode) and exists(done, lambda s: same(v, sp(s))))))",
-                        "forall(done, lambda s: G[rnode][sp(s)] == {'stoich': P(H, eid, s), 'role': 'product'})",
-                        "forall(G.edges, lambda u, v: implies(at_entry(G.has_edge(u, v)), same(G[u][v], at_entry(G[u][v]))))"]},
+                "inv": ["map_ok(species_map, H)", "same(rnode, rx(eid))",
+                        "forall('any', lambda n: G.has_node(n) == (at_iter(G.has_node(n)) or same(n, rx(eid))))",
+                        "forall(at_iter(set(G.nodes)), lambda n: same(G.nodes[n], at_iter(G.nodes[n])))",
+                        "rx_attrs_ok(G, H, eid, include_edge_id_attr)",
+                        "forall(('any', 'any'), lambda u, v: G.has_edge(u, v) == (at_iter(G.has_edge(u, v)) or "
+                        "       (same(v, rx(eid)) and exists(H.edges[eid].reactants.data, lambda s: same(u, sp(s)))) or "
+                        "       (same(u, rx(eid)) and exists(done, lambda s: same(v, sp(s))))))",
+                        "forall(H.edges[eid].reactants.data, lambda s: G[sp(s)][rx(eid)] == {'stoich': R(H, eid, s), 'role': 'reactant'})",
+                        "forall(done, lambda s: G[rx(eid)][sp(s)] == {'stoich': P(H, eid, s), 'role': 'product'})",
+                        "forall(at_iter(set(G.edges)), lambda u, v: same(G[u][v], at_iter(G[u][v])))"]},
         },
     },
 }
